@@ -169,7 +169,7 @@ def nontrivial(case, ref):
     return ref[0] == 'ok' and any(ref[2]) and not all(ref[2])
 
 
-def run(ctx, prop=PROP, check_values=False, gen=None, rule=None):
+def run(ctx, prop=PROP, check_values=False, gen=None, rule=None, extra=None):
     Pm = cm.P()
     ops = cm.build_ops(Pm)
     ctx.rule = rule or (
@@ -188,6 +188,8 @@ def run(ctx, prop=PROP, check_values=False, gen=None, rule=None):
         ctx.prove(['theories/Props/%s.v' % prop])
         if prop == 'C01':
             ctx.logic_obligations()        # regenerated from the current source: see coq/obl/Lgc_C01.v
+    if extra is not None:
+        extra(ctx)
     cases = (gen or gen_cases)(ctx.rng, ctx.tier, ops)
     terms, idx, bad, nsig = [], [], set(), {}
     for i, c in enumerate(cases):
